@@ -679,21 +679,25 @@ impl Database {
             },
             key => {
                 {
-                    if let Some(value) = self.get_value(key.clone()) {
+                    // Read and write under one write lock: a set arriving in between must not be
+                    // overwritten by a tombstone built from the older entry
+                    let mut db = self.map.write().unwrap();
+                    let old_value = db.get(&key).map(|old| old.clone());
+                    if let Some(value) = old_value {
                         // If deleted before the key is in disk remove direct from memory
                         if value.state == ValueStatus::New {
-                            let mut db = self.map.write().unwrap();
                             db.remove(&key);
                         } else {
-                            // value.
-                            self.set_value_version(
-                                &key,
-                                &String::from("<Empty>"),
-                                value.version.saturating_add(1),
-                                ValueStatus::Deleted,
-                                value.value_disk_addr,
-                                value.key_disk_addr,
-                                value.opp_id,
+                            db.insert(
+                                key.clone(),
+                                Value {
+                                    value: String::from("<Empty>"),
+                                    version: value.version.saturating_add(1),
+                                    state: ValueStatus::Deleted,
+                                    value_disk_addr: value.value_disk_addr,
+                                    key_disk_addr: value.key_disk_addr,
+                                    opp_id: value.opp_id,
+                                },
                             );
                         }
                     }
